@@ -15,6 +15,7 @@ func init() {
 }
 
 func c34(r *core.Run) {
+	recoverOnCurve(r, "C34.G3", "Recover")
 	w := r.W
 	parse := w.Func("pkg/aurora", "ParseAddress")
 	newA := w.Func("pkg/aurora", "NewAddress")
